@@ -11,14 +11,14 @@ Import ListNotations.
 Local Open Scope N_scope.
 
 (* (1) Full statement, all entry points at once: for every entry-point number except the session-id
-   allocator, every parameter vector (protocol state, identifiers), every byte string and every
+   allocator (9: one call, 14: a sequence of calls; theorems (5) below), every parameter vector (protocol state, identifiers), every byte string and every
    content of the spare buffer capacity, the Model neither panics nor runs out of fuel. *)
-Theorem C09_no_panic_no_hang_any_entry : forall e p d tail, e <> 9 -> safe (call e p d tail).
+Theorem C09_no_panic_no_hang_any_entry : forall e p d tail, e <> 9 -> e <> 14 -> safe (call e p d tail).
 Proof. exact call_safe. Qed.
 Print Assumptions C09_no_panic_no_hang_any_entry.
 
 (* refinement to the Spec acceptor: it accepts every outcome the Model produces *)
-Theorem C09_model_accepted : forall e p d tail, e <> 9 ->
+Theorem C09_model_accepted : forall e p d tail, e <> 9 -> e <> 14 ->
   accept tt (Call e p d tail) (run_op (Call e p d tail)) = inl tt.
 Proof. exact model_call_accepted. Qed.
 Print Assumptions C09_model_accepted.
@@ -110,6 +110,12 @@ Theorem C09_create_session_sound : forall used count next id nx,
 Proof. exact create_session_sound. Qed.
 Print Assumptions C09_create_session_sound.
 
+Theorem C09_create_session_capacity_exact : forall used count next,
+  table_wf used count -> next <= 65535 -> count < 65535 ->
+  exists id nx, create_session used count next = Ok (id, nx).
+Proof. exact create_session_issues. Qed.
+Print Assumptions C09_create_session_capacity_exact.
+
 Theorem C09_create_session_full_table : forall used count next, 65535 <= count -> create_session used count next = Err.
 Proof. exact create_session_full. Qed.
 Print Assumptions C09_create_session_full_table.
@@ -152,6 +158,12 @@ Example C09_lcp_close_path :
   lcp_receive 9 1 [8; 9; 0; 6; 128; 33] = Ok [[99; 9]] /\
   lcp_receive 3 1 [7; 9; 0; 5; 1] = Ok [[99; 2]].
 Proof. vm_compute. repeat split; reflexivity. Qed.
+
+(* the boundary the integrator's regression sits on: ids 1..65534 live, 65535 free, cursor 1 —
+   the free id is found and issued; the next call is refused (65535 live) *)
+Example C09_create_boundary :
+  create_seq 2 (fun id => negb (id =? 65535)) 65534 1 = Ok [[1; 65535; 1]; [0]].
+Proof. vm_compute. reflexivity. Qed.
 
 (* the witnesses of the repaired defects are rejected inputs now, not panics (regression) *)
 Example C09_witnesses :
